@@ -13,7 +13,7 @@ PROPERTY = "C07"
 LEVEL = "model_checking"
 ASSUMPTIONS = ["E5's validator labels which rules a mutated document breaks (29 rules, June 2018)",
                "scalar parse_literal calls made by rule 5.6.1 are not counted as 'something ran' (DC14)"]
-BUDGET_S = {"quick": 150, "thorough": 3000}
+BUDGET_S = {"quick": 600, "thorough": 3000}
 DEPTH = {"quick": 1, "thorough": 2}
 D1_KINDS = {"quick": ("R4", "R5", "R10"), "thorough": None}
 
